@@ -61,9 +61,12 @@ class _SocketHub:
         """Connects a socket to another"""
         # NOTE: callbacks need to be registered before the socket becomes visible to
         # the remote side, otherwise an early message is queued instead of delivered.
-        self._add_callbacks(socket)
-        self._open_sockets.add(socket.key)
-        self._remote_sockets.add(socket.key)
+        # Register in one step, such that a remote socket either sees all of it or nothing
+        # (its disconnect removes this socket's mark from _remote_sockets).
+        with self._lock:
+            self._add_callbacks(socket)
+            self._open_sockets.add(socket.key)
+            self._remote_sockets.add(socket.key)
 
         try:
             self._wait_for_remote(socket, timeout=timeout)
